@@ -1,7 +1,7 @@
 (* C08 — Read limit and memory bounds hold for every sender, including compressed input.
    Statements only; proofs in Proofs/ReaderP.v, Proofs/ReaderCutP.v, Proofs/ReaderLimitZP.v (compressed messages, every inflater). *)
 From Coq Require Import List NArith ZArith Bool.
-From WS Require Import Base.Words Gen.Consts Model.Mask Model.Frame Model.Proto Model.RefDecoder Model.Reader Model.Script Model.ScriptZ Proofs.ReaderP Proofs.ReaderCutP Proofs.ReaderLimitZP.
+From WS Require Import Base.Words Gen.Consts Model.Mask Model.Frame Model.Proto Model.RefDecoder Model.Reader Model.Script Model.ScriptZ Proofs.ReaderP Proofs.ReaderCutP Proofs.ReaderLimitZP Gen.ReadCode Proofs.GenTieP.
 Import ListNotations.
 Open Scope N_scope.
 
@@ -78,3 +78,30 @@ Theorem C08_limit_stream_compressed : forall cfg inflate co ms sizes e (L : nat)
      exists rs, r_replies (snd r) = rs ++ [RpClose c_StatusMessageTooBig None]).
 Proof. exact reader_limit_zstream. Qed.
 Print Assumptions C08_limit_stream_compressed.
+
+(* ---- tie to the source by translation (Gen/ReadCode.v is regenerated from read.go limitReader.Read / SetReadLimit on every run) ---- *)
+
+(* the model's "limit hit" is the conjunction of the source's two conditions: there is a limit (lr.n >= 0) and the read uses
+   the allowance up (lr.n - n <= 0) *)
+Theorem C08_limit_hit_is_source : forall s got,
+  limit_hit s got = negb (gen_limit_unlimited (r_lrn s)) && gen_limit_hit_after (r_lrn s - Z.of_nat got).
+Proof. exact limit_hit_is_source. Qed.
+Print Assumptions C08_limit_hit_is_source.
+
+(* a Read that finds the allowance exhausted (the source's lr.n == 0 branch) fails, closes with 1009 and hands over nothing *)
+Theorem C08_limit_exhausted_is_source : forall cfg inflate fuel n s, r_closed s = false -> gen_limit_exhausted (r_lrn s) = true ->
+  msg_read cfg inflate fuel n s = ([], Some RELimit, false, write_error s c_StatusMessageTooBig).
+Proof. exact limit_exhausted_is_source. Qed.
+Print Assumptions C08_limit_exhausted_is_source.
+
+(* the caller's buffer is cut down to the allowance exactly when the source cuts it; the allowance of a new connection is
+   what SetReadLimit stores for the default limit *)
+Theorem C08_limit_clamp_is_source : forall lrn n,
+  ((0 <? lrn) && (lrn <? Z.of_nat n))%Z =
+  negb (gen_limit_unlimited lrn) && negb (gen_limit_exhausted lrn) && gen_limit_clamp (Z.of_nat n) lrn.
+Proof. exact limit_clamp_is_source. Qed.
+Print Assumptions C08_limit_clamp_is_source.
+
+Theorem C08_initial_limit_is_source : c_initialLimitStored = gen_limit_stored c_defaultReadLimit.
+Proof. exact initial_limit_is_source. Qed.
+Print Assumptions C08_initial_limit_is_source.
